@@ -2,10 +2,10 @@
 # seedrun.sh <seed id> <PROP> [tier]: apply /verif/seeded/<id>/patch.diff to /repo, run the check, restore /repo.
 id="$1"; prop="$2"; tier="${3:-quick}"
 cd /verif || exit 2
-if ! git -C /repo diff --quiet; then echo "repo working tree not clean"; exit 2; fi
-git -C /repo apply /verif/seeded/$id/patch.diff || git -C /repo apply -3 /verif/seeded/$id/patch.diff || { echo "patch does not apply"; git -C /repo checkout -- .; exit 2; }
+if ! git -C /repo diff --quiet HEAD; then echo "repo working tree not clean"; exit 2; fi
+git -C /repo apply /verif/seeded/$id/patch.diff || git -C /repo apply -3 /verif/seeded/$id/patch.diff || { echo "patch does not apply"; git -C /repo reset -q --hard HEAD; exit 2; }
 out=$(./vcheck "$prop" --tier "$tier" 2>&1); code=$?
-git -C /repo checkout -- .
+git -C /repo reset -q --hard HEAD
 nviol=$(echo "$out" | grep -c "^VIOLATION")
 if [ $code -eq 1 ] && [ $nviol -gt 0 ]; then echo "DETECTED seeded/$id by $prop $tier ($nviol signature(s)): $(echo "$out" | grep 'signature:' | head -3 | tr '\n' ' ')";
 elif [ $code -eq 2 ]; then echo "MACHINERY($code) seeded/$id by $prop: $(echo "$out" | grep -E 'MACHINERY|error' | head -3)";
